@@ -55,6 +55,8 @@ type State struct {
 	mus     map[string]MuState
 	wgs     map[string]int
 	ctxDone bool
+	unsafeClass int   // 0: HTML metacharacters < > " '   1: CR / LF
+	outUnsafe   *Term // some piece written to the response may contain a character of the class
 	ksByKey map[string]*Term // RC4 keystream array per key identity
 	bigBytes map[string]*Term // 96-byte form per big-integer identity
 	sched   []int
@@ -161,6 +163,7 @@ func (st *State) clone() *State {
 	n.sha1s = append([]shaApp(nil), st.sha1s...)
 	n.cur, n.granted, n.preempt = st.cur, st.granted, st.preempt
 	n.ctxDone = st.ctxDone
+	n.unsafeClass, n.outUnsafe = st.unsafeClass, st.outUnsafe
 	n.sched = append([]int(nil), st.sched...)
 	n.mus = map[string]MuState{}
 	for k, v := range st.mus {
@@ -1508,6 +1511,97 @@ func cellsBound(st *State, vals ...Value) int {
 	return b + 1
 }
 
+func (ex *Exec) stringBytes(st *State, s StringV) SliceV {
+	if s.Sym {
+		return SliceV{ex.newObj(st, ArrV{s.Arr, -1, 8}), Const(64, 0), s.Len, s.Len}
+	}
+	a := AConst(8, 0)
+	for i := 0; i < len(s.S); i++ {
+		a = AStore(a, Const(64, uint64(i)), Const(8, uint64(s.S[i])))
+	}
+	n := Const(64, uint64(len(s.S)))
+	return SliceV{ex.newObj(st, ArrV{a, -1, 8}), Const(64, 0), n, n}
+}
+
+func unsafeChars(class int) []byte {
+	if class == 1 {
+		return []byte{'\r', '\n'}
+	}
+	return []byte{'<', '>', '"', '\''}
+}
+
+// unsafeTerm: "the string contains a character of the unsafe class".
+func (ex *Exec) unsafeTerm(st *State, s StringV) *Term {
+	if s.U != nil {
+		return s.U
+	}
+	cs := unsafeChars(st.unsafeClass)
+	if !s.Sym {
+		for i := 0; i < len(s.S); i++ {
+			for _, c := range cs {
+				if s.S[i] == c {
+					return True
+				}
+			}
+		}
+		return False
+	}
+	var u *Term = False
+	for i := 0; i < s.Max; i++ {
+		var is *Term = False
+		for _, c := range cs {
+			is = Or(is, Eq(Select(s.Arr, Const(64, uint64(i))), Const(8, uint64(c))))
+		}
+		u = Or(u, And(Ult(Const(64, uint64(i)), s.Len), is))
+	}
+	return u
+}
+
+// taintOf collects the unsafe predicate of every string reachable inside a formatted argument.
+// Strings that are literals of the program are markup, not attacker data, and do not count.
+func (ex *Exec) taintOf(st *State, v Value, depth int) *Term {
+	if depth > 4 {
+		return False
+	}
+	switch x := v.(type) {
+	case StringV:
+		if !x.Sym {
+			return False
+		}
+		return ex.unsafeTerm(st, x)
+	case IfaceV:
+		if x.T == nil {
+			return False
+		}
+		return ex.taintOf(st, x.V, depth+1)
+	case StructV:
+		var u *Term = False
+		for _, f := range x.F {
+			u = Or(u, ex.taintOf(st, f, depth+1))
+		}
+		return u
+	case PtrV:
+		if x.Obj == 0 {
+			return False
+		}
+		if o := st.heap[x.Obj]; o != nil && len(x.Path) == 0 {
+			return ex.taintOf(st, o.Val, depth+1)
+		}
+	case SliceV:
+		if x.Obj == 0 {
+			return False
+		}
+		if c, ok := st.heap[x.Obj].Val.(CellsV); ok {
+			var u *Term = False
+			for _, e := range c.C {
+				u = Or(u, ex.taintOf(st, e, depth+1))
+			}
+			return u
+		}
+	}
+	return False
+}
+
 // splitIndex continues the execution once for every feasible concrete value k in [0,n)
 // of idx; st itself is abandoned (all continuations are queued).
 func (ex *Exec) splitIndex(st *State, idx *Term, n int, set func(s *State, k int)) bool {
@@ -1681,6 +1775,12 @@ func (ex *Exec) binop(st *State, op token.Token, x, y Value, xt types.Type, pos 
 			return Not(strLess(sy, sx)), true
 		case token.GEQ:
 			return Not(strLess(sx, sy)), true
+		case token.ADD:
+			// concatenation: content not tracked, only whether it may carry an unsafe character
+			ex.fresh++
+			nm := fmt.Sprintf("cat!%d", ex.fresh)
+			n := Add(strLenT(sx), strLenT(sy))
+			return StringV{Sym: true, Arr: AVar(nm, 8), Len: n, Max: strMax(sx) + strMax(sy), U: Or(ex.taintOf(st, sx, 0), ex.taintOf(st, sy, 0))}, true // literals of the program are markup
 		}
 		panic("symbolic string op " + op.String())
 	}
@@ -2128,8 +2228,10 @@ var envStubs = map[string]bool{
 	"strconv.Itoa": true, "strconv.FormatInt": true, "strconv.Atoi": true, "strconv.ParseInt": true,
 	"(net/url.Values).Set": true, "(net/url.Values).Encode": true, "(*net/url.URL).String": true, "(*net/url.URL).Hostname": true, "(*net/url.URL).Port": true,
 	"github.com/jech/storrent/httpclient.Get": true, "net/netip.ParseAddr": true, "net.JoinHostPort": true,
-	"encoding/hex.EncodeToString": true, "hash/fnv.New64a": true, "fmt.Sprintf": true, "os.Getuid": true, "os.Getgid": true,
-	"(*net/url.URL).Query": true, "(net/url.Values).Get": true, "net/url.PathEscape": true,
+	"net/http.Error": true, "net/http.NotFound": true, "net/http.Redirect": true, "(*net/http.Request).ParseForm": true, "(*net/http.Request).PathValue": true,
+	"(net/netip.AddrPort).String": true, "(net/netip.Addr).String": true, "(github.com/jech/storrent/hash.Hash).String": true,
+	"encoding/hex.EncodeToString": true, "hash/fnv.New64a": true, "os.Getuid": true, "os.Getgid": true,
+	"(*net/url.URL).Query": true, "(net/url.Values).Get": true, 
 }
 
 // envResult binds an arbitrary value of the call's result type; error components fork.
@@ -2191,7 +2293,7 @@ func (ex *Exec) freshValue(st *State, t types.Type, why string, depth int) Value
 			nm := fmt.Sprintf("env.str!%d", ex.fresh)
 			n := ex.namedVar(nm+".len", BV(64))
 			st.pc = append(st.pc, Ule(n, Const(64, 4)))
-			return StringV{Sym: true, Arr: AVar(nm, 8), Len: n, Max: 4}
+			return StringV{Sym: true, Arr: AVar(nm, 8), Len: n, Max: 4, U: False} // formatting done by the environment: not attacker text
 		}
 	case *types.Pointer:
 		if depth > 3 {
@@ -2404,6 +2506,10 @@ func (ex *Exec) builtin(st *State, b *ssa.Builtin, args []Value, in *ssa.Call, p
 		}
 	case "append":
 		s := args[0].(SliceV)
+		if sv, isStr := args[1].(StringV); isStr {
+			// append([]byte, string...)
+			args[1] = ex.stringBytes(st, sv)
+		}
 		t := args[1].(SliceV)
 		et := in.Type().Underlying().(*types.Slice).Elem()
 		w, scalar := isScalarType(et)
